@@ -27,6 +27,16 @@ CLAIMED = {
         "Theorems for every ordered pair of number kinds and all values (every double bit pattern): a+b = b+a and a*b = b*a through Number methods, NaN absorbs every operation, the infinity rules (oo + -oo, 0*oo, sign rule, oo/oo), float-never-exact (guarded, with the refuted class RealDouble * Integer 0), Basic-level mul commutativity, Basic-level add commutativity guarded (refuted: zero shortcut with a float operand). Tied exhaustively over all ordered pairs of a 43-value palette x {add, sub, mul, div, pow} through Number methods and Basic add/mul.",
         "Trusted: Coq kernel; Flocq's binary64 as the meaning of IEEE arithmetic (Reals axioms reported); std::pow / libgcc complex division not modelled (skipped in correspondence, oracles still run); known findings listed by key.",
         "7 (C06)"),
+    "C12": (
+        "Rocq proof over rule tables REGENERATED from eval_double.cpp on every run (translators/tr_evalrules.py): per-class formulas over abstract libm symbols, interpreted over the reals (Coquelicot/Rtrigo) + bit-exact correspondence of eval_double / single dispatch / lambda against a Flocq binary64 model",
+        "Theorems: for 35 node classes the formula that the visitor evaluator AND the single-dispatch table compute, interpreted with ideal real functions, is the mathematical function of the class (inverse functions by principal range + inverted function; E**x = exp x); the single-dispatch table equals the visitor table on its 44 classes (computed) and the two evaluators return the same result on every tree over those classes in any float algebra (axiom-free). What the theorems do not reach: the rounding error of libm and of the composition - covered by a long-double reference oracle with conditioning estimate (testing, labelled).",
+        "Trusted: Coq kernel; the translator (a changed formula changes the generated table and breaks the corresponding obligation); Reals axioms (reported); Flocq binary64; glibc libm supplied to the extracted model through OCaml's Stdlib (tgamma/lgamma not evaluated by the model).",
+        "7 (C12)"),
+    "C13": (
+        "Rocq proof over the regenerated lambda rule table and an init/call state-machine model of LambdaDoubleVisitor (CSE wiring as explicit state) + bit-exact correspondence of histories on one visitor object",
+        "Theorems (arbitrary float algebra, axiom-free unless stated): the closures the lambda visitor builds compute the class's mathematical function (Reals) and agree with the eval_double rules; after a successful init, call returns exactly what direct evaluation computes at the inputs; CSE on/off give equal results given a faithful cse(); re-initialising from ANY state (any history incl. failed inits) behaves like a fresh object. Tied by running histories of 1-4 inits (CSE on/off, failing inits, symbols named like CSE replacements) and calls on the library and the model, bit-exact incl. exception/crash outcomes.",
+        "Trusted: as C12; cse() faithfulness is C37's matter (explicit hypothesis); Add/Mul dictionary fold vs get_args fold not proved equal.",
+        "7 (C13)"),
     "C19": (
         "Rocq proof over an executable model of the cereal portable-binary codec of serialize-cereal.h (encoder and decoder on labelled DAGs, id table, both byte orders, DenseMatrix) + byte-exact cross round trips against the rebuilt library",
         "Unbounded theorems: for every labelled DAG of serialisable nodes (any sharing, either byte order) decode(encode w) returns the same expression and the same labelling (shared subexpressions restored), per-node payload round trips (decimal integer strings, canonical rationals, double bit patterns, containers in container order), DenseMatrix round trip. Tied every run by decode_model(dumps_impl(e)) = loads_impl, loads_impl(encode_model(e)) = decode_model, and encode_model(decode_model(B)) = B byte for byte on library streams.",
